@@ -76,6 +76,51 @@ CLAIMED.update({
         note='Trusted: the layout models put the size where the format '
         'specifications put it.'),
 })
+CLAIMED.update({
+    'C03': dict(
+        level='exploration', ref='DESIGN.md section 4 C03',
+        technique=TECH + 'contents x allowed_formats x read-size sequences x '
+        'inspector order with the decision sampled after every simulated '
+        'read; three-valued signature model, no-revision and totality '
+        'invariants over the recorded history',
+        text='Seeded search: signature overlays, valid / mutated / truncated '
+        'images and text/binary files with lengths on both sides of every '
+        'decision point are read through InspectWrapper (read() and '
+        'iteration, seeded read sizes, permuted inspector order, '
+        'allowed_formats subsets) and through detect_file_format (open() '
+        'seam, short reads); wrapper.format is sampled after every read. '
+        'Final results are compared with a yes/no/maybe signature model '
+        '(exclusivity, raw only when nothing matches, multiple => '
+        'ImageFormatError, allowed set honoured), every sample must be total '
+        '(nothing but ImageFormatError) and a decision once reported must '
+        'never change.',
+        note='Trusted: models/sigmodel.py. "maybe" (signature present but '
+        'stream shorter than the decision point; VMDK text territory) '
+        'asserts nothing.'),
+    'C06': dict(
+        level='fault_enumeration', ref='DESIGN.md section 4 C06',
+        technique=TECH + 'injected inspector/source faults: per workload a '
+        'sweep of every single-fault placement (inspector x chunk x phase), '
+        'sampled multi-fault sequences; recorded history judged against a '
+        'pass-through pipe reference model',
+        text='Per workload (content, read plan, file or iterator source, '
+        'expected_format, allowed_formats, inspector order) every placement '
+        'of one injected exception - each inspector x chunk index (first 6, '
+        'last 2) x phase (before eating, after capture, inside '
+        'post_process) - is executed as its own simulated session; further '
+        'runs sample up to three faults (also inside region_complete), eight '
+        'exception classes and source faults. Each session records what the '
+        'source produced, every eat_chunk call and outcome, what the reader '
+        'received and what surfaced, and is judged against the reference '
+        'pipe: bytes unchanged and in order, non-expected failures never '
+        'surface, a failed inspector is never fed again, healthy inspectors '
+        'see exactly the stream, the expected inspector failing or '
+        'mismatching cuts the stream at that chunk with the right exception '
+        'and no further source read.',
+        note='Enumeration is complete only per workload over the listed '
+        'chunk indices and three phases; workloads, multi-fault sequences '
+        'and exception classes are sampled. BaseException is not injected.'),
+})
 CLAIMED = {k: v for k, v in CLAIMED.items()
            if os.path.exists(os.path.join(HERE, 'checks', k.lower() + '.py'))}
 
